@@ -2,7 +2,7 @@
 Line-protocol driver for the C04 models (dense layers, activations, two-layer
 concatenation, normalizer/softmax rows, arg-max).  Sections separated by `|`.
 -/
-import SharkVerif.Model.Models
+import SharkVerif.Model.Models2
 import Driver.Util
 open SharkVerif SharkVerif.Models SharkVerif.Scalar
 
@@ -110,6 +110,159 @@ def runOp {α} [Num α] (secs : List (List String)) : String :=
     match n.toNat?, nums zs with
     | some n, some z => let a := z.toArray; s!"R={argmax n fun k => a.getD k 0}"
     | _, _ => "bad-op"
+  | _ => "fallthrough"
+
+/-- what the further C04 models need beyond `Num`: `std::floor`, the `(std::size_t)` cast of a
+non-negative value and the constant `log π` -/
+class Num2 (α : Type) extends Num α where
+  floor : α → α
+  toNat : α → Nat
+  logPi : α
+
+instance : Num2 Rat where
+  floor q := ((q.floor : Int) : Rat)
+  toNat q := q.floor.toNat
+  logPi := 0          -- not used in rat mode
+instance : Num2 Float where
+  floor := Float.floor
+  toNat x := x.toUInt64.toNat
+  logPi := Float.log (Float.ofBits 0x400921FB54442D18)   -- boost::math::constants::pi<double>()
+
+def showNats (l : List Nat) : String := ",".intercalate (l.map toString)
+
+def runOp2 {α} [Num2 α] (secs : List (List String)) : String :=
+  let nums : List String → Option (List α) := fun ts => ts.mapM parseDy
+  let nats : List String → Option (List Nat) := fun ts => ts.mapM (·.toNat?)
+  match secs with
+  -- normalizer hasB n B | params | X
+  | [("normalizer" :: hd), ps, xs] =>
+    match nats hd, nums ps, nums xs with
+    | some [hb, n, B], some p, some x =>
+      let m : Diag α := ({ n := n, a := fun _ => 0, hasB := hb == 1, b := fun _ => 0 } : Diag α).setParams p
+      let X := mat x n
+      let single := matList B n fun i k => m.eval (X i) k
+      let e := matList B n (m.evalB X)
+      s!"NP={m.numberOfParameters} PV={showVec m.params} S={showMat single} E={showMat e}"
+    | _, _, _ => "bad-op"
+  -- classifier nIn nOut hasB hasBias B probe | params | bias | X
+  | [("classifier" :: hd), ps, bs, xs] =>
+    match nats hd, nums ps, nums bs, nums xs with
+    | some [nIn, nOut, hb, hasBias, B, _], some p, some bias, some x =>
+      let m := mkDense .linear (hb == 1) nIn nOut p
+      let X := mat x nIn
+      let ba := bias.toArray
+      let r := (List.range B).map fun i => classifyRow nOut (hasBias == 1) (fun k => ba.getD k 0) (m.evalB Num.tanh X i)
+      s!"NP={m.numberOfParameters} PV={showVec m.params} R={showNats r}"
+    | _, _, _, _ => "bad-op"
+  -- pool h w d ph pw B fd probe | X | C
+  | [("pool" :: hd), xs, cs] =>
+    match nats hd, nums xs, nums cs with
+    | some [h, w, d, ph, pw, B, _, _], some x, some c =>
+      let s : Pool := { h := h, w := w, d := d, ph := ph, pw := pw }
+      let X := mat x s.nIn
+      let C := mat c s.nOut
+      let e := matList B s.nOut (s.evalB X)
+      let gx := matList B s.nIn (s.gradX X C)
+      s!"NP=0 S={showMat e} E={showMat e} GX={showMat gx}"
+    | _, _, _ => "bad-op"
+  -- resize h w d oh ow B | X | C
+  | [("resize" :: hd), xs, cs] =>
+    match nats hd, nums xs, nums cs with
+    | some [h, w, d, oh, ow, B], some x, some c =>
+      let s : Resize := { h := h, w := w, d := d, oh := oh, ow := ow }
+      let g0 : Gather α := s.gather Num2.floor Num2.toNat
+      -- tabulate the taps once per output pixel
+      let tab := ((List.range g0.nOutPix).map g0.taps).toArray
+      let g : Gather α := { g0 with taps := fun p => tab.getD p [] }
+      let X := mat x g.nIn
+      let C := mat c g.nOut
+      let e := matList B g.nOut (g.evalB X)
+      let gx := matList B g.nIn (g.gradX C)
+      s!"NP=0 S={showMat e} E={showMat e} GX={showMat gx}"
+    | _, _, _ => "bad-op"
+  -- rbf nIn nOut trainCenters trainWidth B | centers | log gamma | X | C
+  | [("rbf" :: hd), cens, lgs, xs, cs] =>
+    match nats hd, nums cens, nums lgs, nums xs, nums cs with
+    | some [nIn, nOut, tc, tw, B], some cen, some lg, some x, some c =>
+      let m0 : RBF α := { nIn := nIn, nOut := nOut, centers := fun _ _ => 0, gamma := fun _ => 0, trainCenters := true, trainWidth := true }
+      let m1 := m0.setParams Num.exp (cen ++ lg)
+      let m : RBF α := { m1 with trainCenters := tc == 1, trainWidth := tw == 1 }
+      -- the harness sets the trained part of the parameter vector once more
+      let m := m.setParams Num.exp ((if tc == 1 then cen else []) ++ (if tw == 1 then lg else []))
+      let X := mat x nIn
+      let C := mat c nOut
+      let out := m.evalB Num.exp Num.log Num2.logPi X
+      let e := matList B nOut out
+      let gp := m.gradParams B X out C
+      s!"NP={m.numberOfParameters} TPV={showVec (m.params Num.log)} TS={showMat e} TE={showMat e} GP={showVec gp}"
+    | _, _, _, _, _ => "bad-op"
+  -- kexp <linear|gauss> gamma nIn nBasis nOut hasB basisBatch B | basis | params | X
+  | [["kexp", kern, gam, nIn, nBasis, nOut, hb, _, b], bs, ps, xs] =>
+    match (parseDy gam : Option α), nats [nIn, nBasis, nOut, hb, b], nums bs, nums ps, nums xs with
+    | some gamma, some [nIn, nBasis, nOut, hb, B], some bas, some p, some x =>
+      let m : KExp α := ({ nBasis := nBasis, nOut := nOut, basis := mat bas nIn, alpha := fun _ _ => 0, hasB := hb == 1, b := fun _ => 0 } : KExp α).setParams p
+      let k : (Nat → α) → (Nat → α) → α := if kern == "linear" then kLinear nIn else kGauss Num.exp gamma nIn
+      let X := mat x nIn
+      let single := matList B nOut fun i o => m.eval k (X i) o
+      let e := matList B nOut (m.evalB k X)
+      if kern == "linear" then s!"NP={m.numberOfParameters} PV={showVec m.params} S={showMat single} E={showMat e}"
+      else s!"NP={m.numberOfParameters} PV={showVec m.params} TS={showMat single} TE={showMat e}"
+    | _, _, _, _, _ => "bad-op"
+  -- ensemble <mean|vote> M nIn nOut hasB B | weights | params of all members | X
+  | [("ensemble" :: kind :: hd), wsec, ps, xs] =>
+    match nats hd, nums wsec, nums ps, nums xs with
+    | some [M, nIn, nOut, hb, B], some ws, some p, some x =>
+      let np := nOut * nIn + (if hb == 1 then nOut else 0)
+      let members := (List.range M).map fun m => mkDense .linear (hb == 1) nIn nOut ((p.drop (m * np)).take np)
+      let X := mat x nIn
+      if kind == "mean" then
+        let single := matList B nOut fun i k => ensembleMean ws (members.map fun m => m.eval Num.tanh (X i)) k
+        let e := matList B nOut fun i k => ensembleMean ws (members.map fun m => m.evalB Num.tanh X i) k
+        s!"NP=0 S={showMat single} E={showMat e}"
+      else
+        -- one vote column per class; members with a single (thresholded) output answer 0 or 1 (repaired code, F-C04-3)
+        let nCls := if nOut == 1 then 2 else nOut
+        let resp := fun i => members.map fun m => classifyRow nOut false (fun _ => 0) (m.evalB Num.tanh X i)
+        let v := matList B nCls fun i k => ensembleVote ws (resp i) k
+        let r := (List.range B).map fun i => classifyRow nCls false (fun _ => 0) (ensembleVote ws (resp i))
+        s!"NP=0 V={showMat v} R={showNats r}"
+    | _, _, _, _ => "bad-op"
+  -- conv <act> valid h w c nf fh fw B probe | params | X | C
+  | [("conv" :: act :: hd), ps, xs, cs] =>
+    match parseAct act, nats hd, nums ps, nums xs, nums cs with
+    | some act, some [valid, h, w, c, nf, fh, fw, B, probe], some p, some x, some cc =>
+      let isValid : Bool := valid == 1
+      let m0 : Conv α := Conv.mk h w c nf fh fw isValid (fun _ => 0) (fun _ => 0) act
+      let m : Conv α := m0.setParams p
+      -- tabulate the parameters (the model reads them through `List.getD`)
+      let fa := ((List.range (m.nf * m.fsize)).map m.filt).toArray
+      let oa := ((List.range m.nf).map m.off).toArray
+      let m : Conv α := { m with filt := fun q => fa.getD q 0, off := fun f => oa.getD f 0 }
+      let X := mat x m.nIn
+      let C := mat cc m.nOut
+      let out := m.evalB Num.tanh X
+      let ea := ((List.range B).map fun i => ((List.range m.nOut).map (out i)).toArray).toArray
+      let outT : Nat → Nat → α := fun i o => (ea.getD i #[]).getD o 0
+      let e := matList B m.nOut outT
+      let gp := m.gradParams B X outT C
+      let gxs := if probe == 1 then showMat (matList B m.nIn (m.gradX outT C)) else "-"
+      if act == .linear || act == .rectifier then
+        s!"NP={m.numberOfParameters} PV={showVec m.params} S={showMat e} E={showMat e} GP={showVec gp} GX={gxs}"
+      else
+        s!"NP={m.numberOfParameters} PV={showVec m.params} TS={showMat e} TE={showMat e} GP={showVec gp} GX={gxs}"
+    | _, _, _, _, _ => "bad-op"
+  -- cmac nIn nOut tilings tiles B | lower upper | params | X | C
+  | [("cmac" :: hd), lu, ps, xs, cs] =>
+    match nats hd, nums lu, nums ps, nums xs, nums cs with
+    | some [nIn, nOut, tilings, tiles, B], some [lo, up], some p, some x, some c =>
+      let m : CMAC α := { nIn := nIn, nOut := nOut, tilings := tilings, tiles := tiles, lower := lo, upper := up, params := p }
+      if p.length != m.numberOfParameters then s!"NP={m.numberOfParameters} bad-parameter-count" else
+      let X := mat x nIn
+      let C := mat c nOut
+      let e := matList B nOut (m.evalB Num2.toNat X)
+      let gp := (List.range m.numberOfParameters).map (m.gradParam Num2.toNat B X C)
+      s!"NP={m.numberOfParameters} PV={showVec m.params} S={showMat e} E={showMat e} GP={showVec gp}"
+    | _, _, _, _, _ => "bad-op"
   | _ => "bad-op"
 
 partial def loop (h : IO.FS.Stream) (out : IO.FS.Stream) (float : Bool) : IO Unit := do
@@ -119,8 +272,11 @@ partial def loop (h : IO.FS.Stream) (out : IO.FS.Stream) (float : Bool) : IO Uni
   match secs with
   | [["mode", "float"]] => out.putStrLn "ok"; loop h out true
   | [["mode", "rat"]] => out.putStrLn "ok"; loop h out false
+  | [["probe", _, _]] => out.putStrLn "ok"; loop h out float      -- harness-side oracle switches
   | _ =>
-    out.putStrLn (if float then runOp (α := Float) secs else runOp (α := Rat) secs)
+    let r := if float then runOp (α := Float) secs else runOp (α := Rat) secs
+    let r := if r == "fallthrough" then (if float then runOp2 (α := Float) secs else runOp2 (α := Rat) secs) else r
+    out.putStrLn r
     loop h out float
 
 def main : IO Unit := do loop (← IO.getStdin) (← IO.getStdout) false
